@@ -26,6 +26,7 @@ for sid, (prop, needs, caught, note) in T.items():
         "demo_without_change_exit": int(exits[0]) if len(exits) > 0 else None,
         "demo_with_change_exit": int(exits[1]) if len(exits) > 1 else None,
         "tests_with_change": (tests[0] if tests else None),
+        "failed_tests_rerun_alone": (re.findall(r"== failed tests re-run alone \(with change\)\n(.*)", log) or [None])[0],
         "quick_checks_reporting_a_violation": viol,
         "source": "independent sub-agent given only the property text, its own worktree and one-line descriptions of the five earlier seeds of the property, plus a hint list of rarely combined features to avoid",
     }
